@@ -53,6 +53,11 @@ def run_one(rec, variant):
     diffs = []
     traced, tpos, span = rs.build(rec, variant, tracer=True)
     plain, _, _ = rs.build(rec, variant, tracer=False)
+    if variant['trace'] == 'true':
+        # trace=True traces every variable of the model: include non-numeric ones added at run time
+        for mm in (traced, plain):
+            mm.add_variable('S', 'ab', dtype='<U2')
+            mm.add_variable('B', True, dtype=bool)
     L = cfg['L']
     opts = dict(min_iter=cfg['min'], max_iter=cfg['max'], tol=rs.real_tol(cfg['tol'], scale, variant['tolmode']),
                 offset=cfg['offset'], failures=cfg['failures'], errors=cfg['errors'], catch_first_error=cfg['cfe'])
